@@ -34,6 +34,7 @@ struct Entry
     int tdef = 0;                  // toggle default (count)
     bool tdef_bool = false;        // declared through default_value(bool)
     bool env_bound = false;
+    int env_alias = -1; // >= 0: bound to the environment variable of that (earlier) entry
     int group = 0; // 0 default group, 1/2 named groups "g1"/"g2" (declared through parser.group(name))
     // expectation carried by round-trip cases (C02): intended assignment
     std::vector<std::string> want;
@@ -54,6 +55,7 @@ struct Entry
         a("tdefb", tdef_bool);
         a("env", env_bound);
         a("group", group);
+        a("envalias", env_alias);
         a("want", want);
         a("wantn", want_count);
     }
@@ -104,6 +106,16 @@ inline std::string env_name(std::size_t i)
     return "NITRO_VERIF_E" + std::to_string(i);
 }
 
+// two entries may be bound to the same variable: index of the entry that owns the variable
+template <class C>
+inline std::size_t env_owner(const C& c, std::size_t i)
+{
+    int a = c.e[i].env_alias;
+    if (a >= 0 && static_cast<std::size_t>(a) < i && c.e[static_cast<std::size_t>(a)].env_bound)
+        return static_cast<std::size_t>(a);
+    return i;
+}
+
 inline std::string list_str(const std::vector<std::string>& v)
 {
     std::string r = "[";
@@ -138,6 +150,8 @@ inline std::string describe_decl(const Case& c)
         }
         if (e.env_bound)
             o << " env";
+        if (e.env_bound && e.env_alias >= 0)
+            o << "(shared with #" << e.env_alias << ")";
         if (e.group % 3)
             o << " group=g" << e.group % 3;
     }
@@ -496,9 +510,10 @@ inline Outcome model_parse(const Case& c, const Step& st)
     for (std::size_t i = 0; i < n; ++i)
     {
         const Entry& e = c.e[i];
-        int es = i < st.env_state.size() ? st.env_state[i] : 0;
-        bool env_avail = e.env_bound && es == 2 && !st.env_word[i].empty();
-        const std::string& w = i < st.env_word.size() ? st.env_word[i] : e.name;
+        const std::size_t ei = env_owner(c, i);
+        int es = ei < st.env_state.size() ? st.env_state[ei] : 0;
+        bool env_avail = e.env_bound && es == 2 && ei < st.env_word.size() && !st.env_word[ei].empty();
+        const std::string& w = ei < st.env_word.size() ? st.env_word[ei] : e.name;
         if (e.kind == OPTION)
         {
             if (given_cmd[i])
@@ -609,7 +624,7 @@ inline std::unique_ptr<nitro::options::parser> build_parser(const Case& c)
             if (e.has_default)
                 o.default_value(e.def);
             if (e.env_bound)
-                o.env(env_name(i));
+                o.env(env_name(env_owner(c, i)));
         }
         else if (e.kind == MULTI)
         {
@@ -621,7 +636,7 @@ inline std::unique_ptr<nitro::options::parser> build_parser(const Case& c)
             if (e.has_default)
                 o.default_value(e.mdef);
             if (e.env_bound)
-                o.env(env_name(i));
+                o.env(env_name(env_owner(c, i)));
         }
         else
         {
@@ -638,7 +653,7 @@ inline std::unique_ptr<nitro::options::parser> build_parser(const Case& c)
                     o.default_value(e.tdef);
             }
             if (e.env_bound)
-                o.env(env_name(i));
+                o.env(env_name(env_owner(c, i)));
         }
     }
     if (c.limit < 0)
@@ -654,6 +669,8 @@ inline void apply_env(const Case& c, const Step& st)
 {
     for (std::size_t i = 0; i < c.e.size(); ++i)
     {
+        if (env_owner(c, i) != i)
+            continue; // shares the variable of an earlier entry
         std::string n = env_name(i);
         int es = i < st.env_state.size() ? st.env_state[i] : 0;
         if (es == 0)
